@@ -124,6 +124,24 @@ func main() {
 				_ = m.Config()
 			}
 		}()
+		// two more middlewares are configured, at the same time, from one Config value that nobody writes to (its
+		// lists need filtering, folding and de-duplication): handing a value to the library is a read
+		shared := cors.Config{Origins: []string{"https://a.example", "https://s.example", "https://a.example"}, Methods: []string{"GET", "PUT", "put"}, RequestHeaders: []string{"*", "Authorization", "X-S"},
+			ResponseHeaders: []string{"Cache-Control", "X-Ra", "x-ra", "Content-Type"}, MaxAgeInSeconds: 30}
+		for g := 0; g < 2; g++ {
+			wg.Add(1)
+			go func(g int) {
+				defer wg.Done()
+				if g == 0 {
+					cors.NewMiddleware(shared)
+					cors.NewMiddleware(shared)
+				} else {
+					m2 := new(cors.Middleware)
+					m2.Reconfigure(&shared)
+					m2.Reconfigure(&shared)
+				}
+			}(g)
+		}
 		wg.Wait()
 	}
 	fmt.Println("vrace: done", iters)
